@@ -101,8 +101,11 @@ CLAIMED = {
         "2 s alarm.",
    note=TRUST + "value.add / value.subtract are modelled in double arithmetic (Value.addF / subtractF: the code's 1/(1/a +- 1/b) "
         "with round-to-nearest-even after each of the three operations, ZeroDivisionError for a zero operand or a zero "
-        "sum) and compared with CPython bit for bit; the theorems about them are over Q (the exact harmonic sum) and the "
-        "oracle asks the double result to be within 1e-9 of it. Partial: the doubles of dots() are tied by table equality on "
+        "sum) and compared with CPython bit for bit; the double computation is related to the exact statement by theorems "
+        "(C09Float.lean on Lemmas/FloatErr.lean: round_err - one rounding of ANY rational errs by at most 2^-53 relative; "
+        "addF_close / addF_close_exact - for ALL positive a, b the double add succeeds within 4*2^-53 relative of the exact "
+        "harmonic sum; subtractF_close - the same for subtract with the cancellation's condition number k in the bound "
+        "(2k+4)*2^-53; addF_zero, subtractF_self, addF_ne_zero), the oracle's 1e-9 is far inside. Partial: the doubles of dots() are tied by table equality on "
         "the vocabulary, not proved from the rounding model; integers beyond 2^53 as beat units are outside the explored domain. Two defects "
         "repaired by fix: commits (4362669, c717ce2).",
    design="§4 C09"),
@@ -313,7 +316,12 @@ CLAIMED = {
         "whole track is a sequence of systems; every bar appears in exactly one system, in order; a glued bar is cut inside the "
         "label columns - find2_le - so that on every string the lead-in is digit-free and its cells still read back as a fingering "
         "of each entry; side conditions on the labels hold for the whole registry: registered_labels_fit, "
-        "registered_labels_nodigit); chord_sound + chord_span (C20Chord.lean: "
+        "registered_labels_nodigit); fromComposition_decode (C20Comp.lean: the page of a whole composition is the header "
+        "followed by rows; in row j every track that still has bars shows exactly its bars j*n..(j+1)*n-1 as ONE system on ITS "
+        "OWN tuning, decoding as above, every track but the first after two || lines, a track that has run out shows nothing, "
+        "three empty lines end the row, and the slices over all rows are each track's bars once and in order - chunks_cover; any "
+        "number of tracks, bars, entries; registered_tuningOK for the side condition; sys_step_sys is the step shared with "
+        "from_Track); chord_sound + chord_span (C20Chord.lean: "
         "every fingering find_chord_fingering returns has one entry per string, every fretted entry lies within 0..maxfret and "
         "sounds a pitch class of the chord, every chord name is covered, at most max_fingers fingers, non-open frets less than "
         "max_distance apart - via follow_spec, makeTable_good, findNoteNames_spec); fromBar_decode + decodes_spec "
@@ -322,9 +330,8 @@ CLAIMED = {
         "fingering has one distinct string per note in order, each sounding its note; a rest reads as nothing; kernel "
         "examples). Tie A: the add_tuning calls = the model's table, every statement of tunings.py and tablature.py, the "
         "default tuning.",
-   note=TRUST + "Partial: decodability is proved for from_Bar, from_NoteContainer and from_Track; for from_Composition's headers "
-        "and track interleaving it is decided by the correspondence and the independent ASCII decoder, "
-        "not proved; chord fingerings and tablature are only "
+   note=TRUST + "Decodability is proved for from_Bar, from_NoteContainer, from_Track and from_Composition (the header text of a "
+        "composition is modelled and compared, not decoded); chord fingerings and tablature are only "
         "exercised on tunings without courses (find_note_names and begin_track cannot handle a course). Two defects repaired by "
         "fix: commits (2c9d6fc, 84be0a7).",
    design="§4 C20"),
